@@ -16,6 +16,9 @@
 //!   sub <key> <actor> <conv>     port.subscribe(actor, conv tagged with key)    -> v2: ok
 //!                                                              v1: held=<h> fin=<f> rx=<r>
 //!   stop <actor>                 actor.stop(None), wait until it is gone         -> ok
+//!   drain <actor>                actor.drain(): refuses messages at once (status Draining), handles
+//!                                its backlog, exits "Drained"; a held actor stays Draining until released
+//!                                                                                -> ok | Draining
 //!   grant port | grant <key>     poll the port task (v2) / forwarding task of subscription
 //!                                <key> (v1) until it parks
 //!                                       -> calls=<key:msg,…|-> done=<bool> [held= fin= rx=]
@@ -135,6 +138,8 @@ struct World {
     tasks: std::collections::HashMap<u64, usize>,
     /// number of `pub` ops so far, and its value at the last grant of each task (statistics)
     npub: u64,
+    /// publications since the last grant of any task
+    unpolled: u64,
     last_grant: std::collections::HashMap<usize, u64>,
 }
 
@@ -163,7 +168,7 @@ impl World {
         let port = Arc::new(OutputPort::<u64>::default());
         CALLS.lock().unwrap().clear();
         FROM_KEY.store(u64::MAX, std::sync::atomic::Ordering::SeqCst);
-        World { ctl, port: Arc::new(Mutex::new(Some(port))), actors, gates, actor_tasks: vec![], tasks: Default::default(), npub: 0, last_grant: Default::default() }
+        World { ctl, port: Arc::new(Mutex::new(Some(port))), actors, gates, actor_tasks: vec![], tasks: Default::default(), npub: 0, unpolled: 0, last_grant: Default::default() }
     }
 
     /// subscriber actors are not under test: whenever one of their (gated) loops can run, it runs
@@ -194,6 +199,7 @@ impl World {
     async fn grant(&mut self, id: usize, st: &mut Stats) -> String {
         let Some(t) = self.ctl.task(id) else { return "no-such-task".into() };
         let behind = self.npub - self.last_grant.insert(id, self.npub).unwrap_or(0);
+        self.unpolled = 0;
         if !t.is_done() {
             if V2 && behind > 32 {
                 st.bump("v2_grant_backlog_over_32");
@@ -245,8 +251,14 @@ impl World {
                 let guard = self.port.lock().unwrap();
                 let Some(port) = guard.as_ref() else { return "closed".into() };
                 self.npub += 1;
+                self.unpolled += 1;
+                let u = self.unpolled;
+                st.0.entry("max_publications_accepted_while_no_task_was_polled".into()).and_modify(|x| *x = (*x).max(u)).or_insert(u);
+                let before = CALLS.lock().unwrap().len();
+                // every forwarding task / the port task is gated: the call returns without any of them running
                 port.send(m.parse().unwrap());
-                "ok".into()
+                let inline = CALLS.lock().unwrap().len() - before;
+                if inline == 0 { "ok".into() } else { format!("ok inline-converter-calls={inline}") }
             }
             ["drop"] => {
                 st.bump("drop");
@@ -338,6 +350,15 @@ impl World {
                 st.bump("stop");
                 let a: usize = actor.parse().unwrap();
                 self.actors[a].0.stop(None);
+                settle().await;
+                self.pump_actors().await;
+                let s = self.actors[a].0.get_status();
+                if s == ractor::ActorStatus::Stopped { "ok".into() } else { format!("{s:?}") }
+            }
+            ["drain", actor] => {
+                st.bump("drain");
+                let a: usize = actor.parse().unwrap();
+                let _ = self.actors[a].0.drain();
                 settle().await;
                 self.pump_actors().await;
                 let s = self.actors[a].0.get_status();
@@ -504,6 +525,9 @@ fn gen_case(rng: &mut Rng, n: u64) -> Vec<String> {
             let a = rng.below(nactors);
             if echo_case && a == 0 {
                 // never stopped
+            } else if rng.chance(1, 3) {
+                // drain: refuses at once; a held (Starting) actor stays Draining until released
+                ops.push(format!("drain {a}"));
             } else if !held.contains(&a) {
                 ops.push(format!("stop {a}"));
             } else if rng.chance(1, 2) {
